@@ -10,4 +10,27 @@ func propC10(c *Ctx, r *Report) {
 	r.rule("E1/errflow/rows-iteration", 4, "rows.Next() iteration must be followed by a handled rows.Err()")
 	eff := computeEffects(c)
 	runErrflow(c, eff, r, c.RSync, "E1/errflow", true)
+	// recovered panics: a panic raised by a fault and recovered on the sync path lets the same process retry
+	// with whatever in-memory state deferred functions left behind
+	r.rule("C10/recover-sites", 1, "recover() on the sync path is limited to audited sites")
+	auditedRecover := map[string]string{
+		"node.multiFetch$1$1": "worker goroutine of multiFetch: guards a send on a channel the collector may already have closed; no state survives it",
+	}
+	n := 0
+	for _, f := range sortedFuncs(c.RSync) {
+		for _, ci := range callsOf(f) {
+			if calleeName(ci.Common()) != "builtin.recover" {
+				continue
+			}
+			n++
+			if why, ok := auditedRecover[fname(f)]; ok {
+				r.audited("C10/recover-sites", fname(f)+" recover()", c.ipos(ci), why)
+			} else {
+				r.viol("C10/recover-sites", fname(f)+" recover()", c.ipos(ci), "a panic is recovered on the sync path: a fault that used to end the process (so that a fresh process recomputes everything from the database) now lets the same process retry with in-memory state modified while the panic unwound (deferred cache updates)")
+			}
+		}
+	}
+	if n == 0 {
+		r.ok("C10/recover-sites", "no recover() on the sync path", "-", "")
+	}
 }
